@@ -89,6 +89,9 @@ func setJoinContext(ctx *context) error {
 
 	switch v := ctx.phyPayload.MACPayload.(type) {
 	case *lorawan.JoinRequestPayload:
+		if v.DevEUI != ctx.joinReqPayload.DevEUI {
+			return errors.New("DevEUI does not match the DevEUI of the join-request")
+		}
 		// the join-accept MIC and the session-keys are derived from the JoinEUI
 		// of the (MIC validated) join-request
 		ctx.joinEUI = v.JoinEUI
